@@ -10,6 +10,7 @@ after every history, across all width promotions: no counter ever wraps.
 import BBProofs.Ops
 import BBProofs.RefPolicy
 import BBProofs.Exact
+import BBProofs.GenEq
 
 namespace BB
 
@@ -107,5 +108,25 @@ theorem C02_width_real (n : Nat) (h : n < 2 ^ 64) : minSafe n ≠ .big :=
 /-! Non-vacuity: a cluster crossing the 255/256 boundary. -/
 example : (Clu.merge { n := 255, w := .u8, ls := [255, 0], ids := List.range 255, cent := [true, false] }
     (Clu.ofRow [true, true] 255)).ls = [256, 1] := by decide
+
+/-! ## The same for the code itself
+
+`BBGen.*` is the Lean text `tools/py2lean.py` wrote from the Python sources on this run; `PV` is the
+Python / NumPy value algebra of `BBModel/PyNum.lean` (see `BBProofs/GenEq.lean`). -/
+
+/-- code: `min_safe_uint(n)` returns the narrowest unsigned dtype holding `n`, and raises `ValueError`
+exactly from 2^64 on -/
+theorem C02_code_min_safe_uint (expf : Rat → Rat) (n : Nat) :
+    BBGen.min_safe_uint expf (PV.int n) =
+      if n < 2 ^ 64 then PV.dtype (some (minSafe n)) else PV.err "ValueError" := by
+  rw [gen_min_safe_uint]
+  unfold minSafe? minSafe
+  split_ifs <;> first | rfl | omega
+
+/-- code: the centroid stored with a summary is the majority vote (packed) -/
+theorem C02_code_centroid (expf : Rat → Rat) (w : W) (ls : List Nat) (n : Nat)
+    (hk : ∀ k ∈ ls, k ≤ n) (hn : n < 2 ^ 53) :
+    BBGen.centroid_from_sum expf (PV.arr w ls) (PV.int n) (PV.bool true)
+      = PV.arr .u8 (pack (centroidFromSum ls n)) := gen_centroid_packed expf w ls n hk hn
 
 end BB
